@@ -3,6 +3,7 @@ package verifsim
 import (
 	"context"
 	"io"
+	"os"
 	"os/exec"
 )
 
@@ -23,6 +24,9 @@ type Cmd struct {
 	Stdin  io.Reader
 	Stdout io.Writer
 	Stderr io.Writer
+	// ProcessState is set like os/exec does: nil when the process could not
+	// be started, the state of a real exited process otherwise.
+	ProcessState *os.ProcessState
 
 	real    *exec.Cmd
 	started bool
@@ -56,15 +60,37 @@ func (c *Cmd) realCmd() *exec.Cmd {
 	return rc
 }
 
+var okState *os.ProcessState
+
+func (c *Cmd) setState() {
+	switch e := c.err.(type) {
+	case nil:
+		if okState == nil {
+			rc := exec.Command("/bin/sh", "-c", "exit 0")
+			rc.Run()
+			okState = rc.ProcessState
+		}
+		c.ProcessState = okState
+	case *exec.ExitError:
+		c.ProcessState = e.ProcessState
+	default:
+		c.ProcessState = nil
+	}
+}
+
 func (c *Cmd) simulate() {
 	Yield("exec.start")
 	c.out, c.err = ExecHook(c.Args[0], c.Args[1:], c.Dir)
+	c.setState()
 	Yield("exec.end")
 }
 
 func (c *Cmd) Run() error {
 	if ExecHook == nil {
-		return c.realCmd().Run()
+		rc := c.realCmd()
+		err := rc.Run()
+		c.ProcessState = rc.ProcessState
+		return err
 	}
 	c.simulate()
 	if c.Stdout != nil {
@@ -104,6 +130,7 @@ func (c *Cmd) Wait() error {
 		return c.real.Wait()
 	}
 	c.out, c.err = ExecHook(c.Args[0], c.Args[1:], c.Dir)
+	c.setState()
 	Yield("exec.end")
 	if c.Stdout != nil {
 		c.Stdout.Write(c.out)
